@@ -146,6 +146,9 @@ class ArraySlice(_ArrayExpr):
                 break
             if isinstance(idx, slice):
                 new_idx = sp.Tuple(*normalize(idx, axis_size))
+            elif isinstance(idx, sp.Tuple):
+                # already normalized (start, stop, step), e.g. when rebuilt from args
+                new_idx = idx
             else:
                 new_idx = _sympify(_normalize_index(idx, axis_size))
             normalized_indices.append(new_idx)
